@@ -23,6 +23,11 @@ const userNS = "http://jabber.org/protocol/muc#user"
 
 var joinPlans = []string{"self-presence", "error-presence", "other-occupant-then-self", "foreign-room-then-self", "nothing", "self-presence-then-error", "error-then-self-presence"}
 var leavePlans = []string{"unavailable", "error-reply", "nothing", "no-leave"}
+var rejoinPlans = []string{"self-presence", "error-presence", "nothing"}
+var roomsJoinPlans = []string{"self", "first-room-occupant-then-self", "kicked-from-first-room-then-self", "error"}
+var roomsLeavePlans = []string{"unavailable", "second-room-unavailable-then-unavailable"}
+
+var roomB = jid.MustParse("other@conf.example.net/me")
 
 var room = jid.MustParse("room@conf.example.net/me")
 
@@ -56,21 +61,42 @@ func run(c *nd.Ctx, phase string) nd.Result {
 	// answered by the self-presence and every leave answer is explored
 	jp, lp := "self-presence", "no-leave"
 	ninv, invShape := 0, 0
+	rp, afterLeave, newNick := "", false, false
+	bp, lp2 := "", ""
 	if phase == "join" {
 		jp = joinPlans[c.Choose(len(joinPlans), "room-answers-join")]
 		ninv = c.Choose(3, "invitations")
 		if ninv > 0 {
 			invShape = c.Choose(3, "invitation-shape")
 		}
-	} else {
+	} else if phase == "leave" {
 		lp = leavePlans[c.Choose(len(leavePlans)-1, "room-answers-leave")]
+	} else if phase == "rooms" {
+		// one step of the history is explored, the steps before it are set-up
+		// (run on the canonical schedule)
+		bp = roomsJoinPlans[c.Choose(len(roomsJoinPlans), "second-room-answers-join")]
+		if c.Choose(2, "explored-step") == 1 {
+			if bp == "error" {
+				return nd.Result{Skip: true}
+			}
+			lp2 = roomsLeavePlans[c.Choose(len(roomsLeavePlans), "first-room-answers-leave")]
+		}
+	} else {
+		// phase "rejoin": join (set-up), optionally leave (set-up), then join
+		// the same channel again, optionally under a new nickname
+		rp = rejoinPlans[c.Choose(len(rejoinPlans), "room-answers-rejoin")]
+		afterLeave = c.Choose(2, "rejoin-after-leave") == 1
+		newNick = c.Choose(2, "rejoin-with-new-nick") == 1
+		if afterLeave {
+			lp = "unavailable"
+		}
 	}
 	// without a canceller nothing but the room's answer can end the call: a lost
 	// notification then shows up as a deadlock instead of hiding behind the
 	// cancellation
-	withCanceller := c.Choose(2, "canceller") == 0
-	if quickTier && phase == "leave" && withCanceller {
-		// quick tier: the leave phase is explored without the canceller thread
+	withCanceller := phase != "rooms" && c.Choose(2, "canceller") == 0
+	if quickTier && phase != "join" && withCanceller {
+		// quick tier: the leave and rejoin phases are explored without the canceller thread
 		// (the interleaving space with it does not fit the quick budget)
 		return nd.Result{Skip: true}
 	}
@@ -79,7 +105,7 @@ func run(c *nd.Ctx, phase string) nd.Result {
 		// canceller thread; the thorough tier explores the full product
 		return nd.Result{Skip: true}
 	}
-	if !withCanceller && (jp == "nothing" || (phase == "leave" && lp == "nothing")) {
+	if !withCanceller && (jp == "nothing" || (phase == "leave" && lp == "nothing") || rp == "nothing") {
 		return nd.Result{Skip: true}
 	}
 	ns := stanza.NSClient
@@ -87,6 +113,10 @@ func run(c *nd.Ctx, phase string) nd.Result {
 	var setupErr, joinErr, leaveErr error
 	joinCancelled, leaveCancelled := false, false
 	joinReturned, leaveReturned, left := false, false, false
+	var rejoinErr, joinBErr error
+	joinBReturned := false
+	rejoinStarted, rejoinReturned, rejoinCancelled := false, false, false
+	rejoinMe := ""
 	joinedAfterJoin, joinedAfterLeave := false, false
 	var invites []string
 	userPresences := 0
@@ -101,6 +131,7 @@ func run(c *nd.Ctx, phase string) nd.Result {
 		}
 		var seen strings.Builder
 		answered := map[string]bool{}
+		joinsSeen := 0
 		env.Lib.OnWrite = func(p []byte) {
 			seen.Write(p)
 			for _, el := range vsess.TopLevel(ns, seen.String()) {
@@ -110,12 +141,47 @@ func run(c *nd.Ctx, phase string) nd.Result {
 				}
 				answered[id] = true
 				idAttr := fmt.Sprintf(" id='%s'", id)
+				if phase == "rooms" {
+					to := el.Attr("to")
+					switch {
+					case to == room.String() && el.Attr("type") == "":
+						env.PeerWrite(selfPresence("", room.String(), ""))
+					case to == roomB.String() && el.Attr("type") == "":
+						switch bp {
+						case "self":
+							env.PeerWrite(selfPresence("", roomB.String(), ""))
+						case "first-room-occupant-then-self":
+							env.PeerWrite(selfPresence("", "room@conf.example.net/other", "") + selfPresence("", roomB.String(), ""))
+						case "kicked-from-first-room-then-self":
+							env.PeerWrite(selfPresence("unavailable", room.String(), "") + selfPresence("", roomB.String(), ""))
+						case "error":
+							env.PeerWrite(fmt.Sprintf(`<presence from='%s' type='error'%s><error type='auth'><forbidden xmlns='urn:ietf:params:xml:ns:xmpp-stanzas'/></error></presence>`, roomB.String(), idAttr))
+						}
+					case to == room.String():
+						if lp2 == "second-room-unavailable-then-unavailable" {
+							env.PeerWrite(selfPresence("unavailable", roomB.String(), ""))
+						}
+						env.PeerWrite(selfPresence("unavailable", room.String(), ""))
+					}
+					continue
+				}
 				if el.Attr("type") == "unavailable" {
 					switch lp {
 					case "unavailable":
 						env.PeerWrite(selfPresence("unavailable", room.String(), ""))
 					case "error-reply":
 						env.PeerWrite(fmt.Sprintf(`<presence from='%s' type='error'%s><error type='cancel'><not-acceptable xmlns='urn:ietf:params:xml:ns:xmpp-stanzas'/></error></presence>`, room.String(), idAttr))
+					}
+					continue
+				}
+				joinsSeen++
+				if joinsSeen > 1 {
+					// the rejoin: answered for the occupant address it asks for
+					switch rp {
+					case "self-presence":
+						env.PeerWrite(selfPresence("", el.Attr("to"), ""))
+					case "error-presence":
+						env.PeerWrite(fmt.Sprintf(`<presence from='%s' type='error'%s><error type='cancel'><conflict xmlns='urn:ietf:params:xml:ns:xmpp-stanzas'/></error></presence>`, el.Attr("to"), idAttr))
 					}
 					continue
 				}
@@ -143,6 +209,8 @@ func run(c *nd.Ctx, phase string) nd.Result {
 		}
 		ctxJ, cancelJ := context.WithCancel(context.Background())
 		ctxL, cancelL := context.WithCancel(context.Background())
+		ctxR, cancelR := context.WithCancel(context.Background())
+		defer cancelR()
 		vs.GoNamed("canceller", false, func() {
 			if !withCanceller {
 				return
@@ -155,6 +223,15 @@ func run(c *nd.Ctx, phase string) nd.Result {
 				cancelJ()
 				return
 			}
+			if phase == "rejoin" {
+				vs.Block("rejoin-started", func() bool { return rejoinStarted })
+				vs.Yield("cancel-rejoin")
+				if !rejoinReturned {
+					rejoinCancelled = true
+				}
+				cancelR()
+				return
+			}
 			vs.Block("join-returned", func() bool { return joinReturned })
 			vs.Yield("cancel-leave")
 			if !leaveReturned {
@@ -164,13 +241,46 @@ func run(c *nd.Ctx, phase string) nd.Result {
 			cancelJ()
 		})
 		var ch *muc.Channel
-		if phase == "leave" {
+		if phase != "join" {
 			vs.SetCanonical(true) // the join is only the set-up here
 		}
 		ch, joinErr = client.Join(ctxJ, room, env.S)
-		vs.SetCanonical(false)
+		if phase != "rejoin" && phase != "rooms" {
+			vs.SetCanonical(false)
+		}
 		joinReturned = true
-		if joinErr == nil {
+		if phase == "rooms" {
+			if lp2 == "" {
+				vs.SetCanonical(false)
+			}
+			if joinErr == nil {
+				_, joinBErr = client.Join(ctxR, roomB, env.S)
+				joinBReturned = true
+				vs.SetCanonical(false)
+				if lp2 != "" {
+					leaveErr = ch.Leave(ctxL, "bye")
+					left = true
+				}
+			}
+		} else if phase == "rejoin" {
+			if joinErr == nil && afterLeave {
+				leaveErr = ch.Leave(ctxL, "bye")
+				left = true
+			}
+			vs.SetCanonical(false)
+			if joinErr == nil && leaveErr == nil {
+				rejoinStarted = true
+				if newNick {
+					rejoinErr = ch.Join(ctxR, muc.Nick("me2"))
+				} else {
+					rejoinErr = ch.Join(ctxR)
+				}
+				rejoinReturned = true
+				if rejoinErr == nil {
+					rejoinMe = ch.Me().String()
+				}
+			}
+		} else if joinErr == nil {
 			joinedAfterJoin = ch.Joined()
 			if lp != "no-leave" {
 				leaveErr = ch.Leave(ctxL, "bye")
@@ -188,6 +298,22 @@ func run(c *nd.Ctx, phase string) nd.Result {
 		panic(setupErr)
 	}
 	desc := fmt.Sprintf("join answered by %s, leave answered by %s, %d invitations (shape %d), canceller=%v", jp, lp, ninv, invShape, withCanceller)
+	if phase == "rooms" {
+		desc = fmt.Sprintf("two rooms: second join answered by %s, leaving the first answered by %s", bp, lp2)
+	}
+	rejoinKind := ""
+	if phase == "rejoin" {
+		rejoinKind = "resync"
+		if afterLeave {
+			rejoinKind = "after-leave"
+		}
+		if newNick {
+			rejoinKind += ":new-nick"
+		} else {
+			rejoinKind += ":same-nick"
+		}
+		desc = fmt.Sprintf("rejoin (%s) answered by %s, canceller=%v", rejoinKind, rp, withCanceller)
+	}
 	c.Note("%s outcome=%s", desc, out.Kind)
 	for _, t := range out.Trace {
 		c.Note("  %s", t)
@@ -213,6 +339,17 @@ func run(c *nd.Ctx, phase string) nd.Result {
 		return fail("muc:"+out.Panic.Sig(), "panic in thread %s: %s\n%s", out.PanicIn, out.Panic.Value, out.Panic.Stack)
 	case "deadlock":
 		sig := "muc:deadlock"
+		if phase == "rooms" {
+			switch {
+			case joinReturned && !joinBReturned && bp != "error":
+				sig = "rooms:second-join-never-returns-although-self-presence-arrived"
+			case joinBReturned && !leaveReturned:
+				sig = "rooms:leave-never-returns-although-unavailable-presence-arrived"
+			}
+		}
+		if phase == "rejoin" && rejoinStarted && !rejoinReturned && rp == "self-presence" {
+			return fail("rejoin:never-returns-although-self-presence-arrived:"+rejoinKind, "blocked threads: %v", out.Blocked)
+		}
 		if joinReturned && joinErr == nil && !leaveReturned && lp == "unavailable" {
 			sig = "leave:never-returns-although-unavailable-presence-arrived"
 		} else if !joinReturned && jp != "nothing" && jp != "error-presence" {
@@ -221,6 +358,28 @@ func run(c *nd.Ctx, phase string) nd.Result {
 		return fail(sig, "blocked threads: %v", out.Blocked)
 	case "horizon":
 		return fail("muc:does-not-terminate", "blocked: %v", out.Blocked)
+	}
+	if phase == "rooms" {
+		if joinErr != nil {
+			return fail("rooms:setup-failed", "join %v", joinErr)
+		}
+		var se stanza.Error
+		switch {
+		case joinBErr == nil:
+			if bp == "error" {
+				return fail("rooms:second-join-succeeds-on-error", "Join returned nil")
+			}
+		case errors.As(joinBErr, &se):
+			if bp != "error" {
+				return fail("rooms:second-join-stanza-error-without-error-reply", "Join returned %v", joinBErr)
+			}
+		default:
+			return fail("rooms:second-join-unexpected-error", "Join returned %v", joinBErr)
+		}
+		if leaveErr != nil {
+			return fail("rooms:leave-fails-although-unavailable-presence-arrived", "Leave returned %v", leaveErr)
+		}
+		return res
 	}
 	// Join
 	selfSent := jp == "self-presence" || jp == "other-occupant-then-self" || jp == "foreign-room-then-self" || jp == "self-presence-then-error" || jp == "error-then-self-presence"
@@ -272,6 +431,36 @@ func run(c *nd.Ctx, phase string) nd.Result {
 			return fail("leave:fails-although-unavailable-presence-arrived", "Leave returned %v", leaveErr)
 		}
 	}
+	// Rejoin
+	if phase == "rejoin" {
+		if !rejoinStarted {
+			return fail("rejoin:setup-failed", "join %v leave %v", joinErr, leaveErr)
+		}
+		switch {
+		case rejoinErr == nil:
+			if rp != "self-presence" {
+				return fail("rejoin:success-without-self-presence:"+rejoinKind, "Join returned nil but the room never sent the self-presence")
+			}
+			want := room.String()
+			if newNick {
+				want = "room@conf.example.net/me2"
+			}
+			if rejoinMe != want {
+				return fail("rejoin:wrong-occupant-address:"+rejoinKind, "the channel reports %q after rejoining as %q", rejoinMe, want)
+			}
+		case errors.As(rejoinErr, &se):
+			if rp != "error-presence" {
+				return fail("rejoin:stanza-error-without-error-reply:"+rejoinKind, "Join returned %v", rejoinErr)
+			}
+		case errors.Is(rejoinErr, context.Canceled):
+			if !rejoinCancelled {
+				return fail("rejoin:context-error-without-cancellation:"+rejoinKind, "Join returned %v", rejoinErr)
+			}
+		default:
+			return fail("rejoin:unexpected-error:"+rejoinKind, "Join returned %v", rejoinErr)
+		}
+		return res
+	}
 	// invitations exactly once each
 	if len(invites) != ninv {
 		return fail("invite:delivery-count", "%d mediated invitations were sent, the callback ran %d times", ninv, len(invites))
@@ -297,17 +486,21 @@ func init() {
 		Level: "model_checking",
 		Rule: "real Session + muc.Client on the controlled scheduler: the application joins room/nick and (if joined) leaves, a canceller thread cancels the join context and then the leave context at instants chosen by the scheduler; the room (reactive script) answers the join with one of {self-presence, error presence for the request id, another occupant's presence then self-presence, a presence from a never-joined room then self-presence, nothing, self-presence then error} and the leave with {unavailable self-presence, error reply, nothing, (no leave)}; 0-2 mediated invitations are delivered before. Every interleaving of application, canceller, serve loop and the library's own goroutines up to the preemption bound. " +
 			"Oracle: Join nil only after the self-presence (and never failing when it arrived uncancelled), the room's stanza error on error, the context error only after cancellation; Joined() true right after a successful join and false after the unavailable presence; Leave nil on the unavailable presence, stanza error on error reply, context error only after cancellation; each invitation delivered exactly once; no deadlock or panic. Non-trivial = every distinct schedule.",
-		Assumptions: []string{"one room, one occupant address; rejoin sequences are not explored", "a thread about to block on a channel is not yet visible as a waiter, so lossy notifications are reachable"},
+		Assumptions: []string{"one room; histories are join, join+leave, join(+leave)+rejoin (same or new nickname); the rejoin part runs one preemption level below the others", "a thread about to block on a channel is not yet visible as a waiter, so lossy notifications are reachable"},
 		Parts: func(tier string) []drv.Part {
 			pre, b := 1, 3*time.Minute
 			quickTier = tier == "quick"
+			rejoinPre, roomsPre := 0, 1
 			if tier == "thorough" {
 				pre, b = 2, 40*time.Minute
+				rejoinPre, roomsPre = 1, 1
 			}
 			env := []string{"GOMAXPROCS=1"}
 			return []drv.Part{
 				{Name: "join", Desc: "every answer to the join, cancellation of the join, invitations", Body: body("join"), MaxDev: pre, ShardLevels: 3, Budget: b, Env: env},
 				{Name: "leave", Desc: "every answer to the leave after a successful join, cancellation of the leave", Body: body("leave"), MaxDev: pre, ShardLevels: 3, Budget: b, Env: env},
+				{Name: "rooms", Desc: "two rooms on one client: joining a second room while presences of the first arrive (another occupant, being kicked), leaving the first while the second sends an unavailable presence", Body: body("rooms"), MaxDev: roomsPre, ShardLevels: 2, Budget: b, Env: env},
+				{Name: "rejoin", Desc: "joining the same channel again (re-synchronisation or after a leave, same or new nickname), every answer, cancellation", Body: body("rejoin"), MaxDev: rejoinPre, ShardLevels: 2, Budget: b, Env: env},
 			}
 		},
 	})
